@@ -412,17 +412,15 @@ fn empty_filter_class(f: &NetworkFilter) -> bool {
     }
 }
 
-/// "plain" shapes for the inclusion check: no wildcard, no separator except one trailing `^`.
+/// "plain" shapes for the inclusion check: no wildcard and no separator in the pattern part
+/// (`||host^` has an empty pattern part and is included).
 fn plain_shape(f: &NetworkFilter) -> bool {
     if has(f.mask, NetworkFilterMask::IS_COMPLETE_REGEX) || has(f.mask, NetworkFilterMask::IS_HOSTNAME_REGEX) {
         return false;
     }
     match &f.filter {
         FilterPart::Empty => true,
-        FilterPart::Simple(p) => {
-            let q = p.strip_suffix('^').unwrap_or(p);
-            !q.contains('*') && !q.contains('^')
-        }
+        FilterPart::Simple(p) => !p.contains('*') && !p.contains('^'),
         FilterPart::AnyOf(_) => false,
     }
 }
@@ -570,6 +568,9 @@ fn inclusion_failure(f: &NetworkFilter, conv: &Conv, urls: &[String]) -> (u64, u
         if !u.is_ascii() {
             continue;
         }
+        if f3_scheme_false_positive(f, u) {
+            continue;
+        }
         n += 1;
         if !rule_matches(f, u) {
             continue;
@@ -589,6 +590,21 @@ fn inclusion_failure(f: &NetworkFilter, conv: &Conv, urls: &[String]) -> (u64, u
     (n, hit, None)
 }
 
+/// Known-finding class: a rule without pattern, hostname and scheme restriction (`*$third-party`)
+/// is exported as `^https?://`; the crate's matcher also applies it to ws:// and wss:// URLs.
+fn ws_vs_scheme_only_class(f: &NetworkFilter, url: &str) -> bool {
+    matches!(f.filter, FilterPart::Empty)
+        && f.hostname.is_none()
+        && has(f.mask, NetworkFilterMask::FROM_HTTP | NetworkFilterMask::FROM_HTTPS)
+        && (url.starts_with("ws://") || url.starts_with("wss://"))
+}
+/// Not a C20 matter: a rule restricted to one of http/https (`|http://`) "matches" a websocket URL
+/// only through the matcher defect F3 (C01/C03 known finding); such pairs are skipped.
+fn f3_scheme_false_positive(f: &NetworkFilter, url: &str) -> bool {
+    has(f.mask, NetworkFilterMask::FROM_HTTP) != has(f.mask, NetworkFilterMask::FROM_HTTPS)
+        && (url.starts_with("ws://") || url.starts_with("wss://"))
+}
+
 fn userinfo_url(u: &str) -> bool {
     u.split("://").nth(1).map_or(false, |r| r.split('/').next().unwrap_or("").contains('@'))
 }
@@ -600,6 +616,12 @@ fn gen_urls(r: &mut Rng, line: &str) -> Vec<String> {
     }
     for _ in 0..2 {
         v.push(gen::url(r));
+    }
+    if r.chance(1, 12) {
+        // credentials in the authority (known finding C20_userinfo_url when the rule is host-anchored)
+        if let Some(u) = v.first().cloned() {
+            v.push(u.replacen("://", "://user:pw@", 1));
+        }
     }
     // case variation: the request is lowercased by the engine, Safari matches case-insensitively
     if let Some(u) = v.first().cloned() {
@@ -727,7 +749,13 @@ fn main() {
                     incl_rules += 1;
                     sm.oracle_evaluations += n;
                     if let Some(u) = fail {
-                        let class = if userinfo_url(&u) { Some("C20_userinfo_url") } else { None };
+                        let class = if userinfo_url(&u) {
+                            Some("C20_userinfo_url")
+                        } else if ws_vs_scheme_only_class(f, &u) {
+                            Some("C20_patternless_rule_misses_websocket_urls")
+                        } else {
+                            None
+                        };
                         sm.failure(class, &format!("rule {:?} matches {:?} but the emitted url-filter does not", p.line, u), json!({"lines": [p.line], "url": u}));
                     }
                 }
